@@ -1,0 +1,12 @@
+//go:build verif
+
+package snow3g
+
+// Thin aliases of unexported functions, for the differential verification harness only.
+
+func VerifMulx(V, c byte) byte       { return mulx(V, c) }
+func VerifMulxPow(V, i, c byte) byte { return mulxPow(V, i, c) }
+func VerifS1(w uint32) uint32        { return s1(w) }
+func VerifS2(w uint32) uint32        { return s2(w) }
+func VerifMulAlpha(c byte) uint32    { return mulAlpha(c) }
+func VerifDivAlpha(c byte) uint32    { return divAlpha(c) }
